@@ -28,6 +28,7 @@ import (
 	"runtime/pprof"
 	"strconv"
 	"strings"
+	"sync"
 	"syscall"
 	"time"
 
@@ -110,8 +111,10 @@ var childEnv = []string{"GOMAXPROCS=4", "GOGC=400"}
 // mountScratchTmpfs puts the scratch directory on a tmpfs when this process runs in a
 // private mount namespace (run.sh): content/local fsyncs every commit. Returns the undo.
 func mountScratchTmpfs(r *vf.Run) func() {
+	// run.sh: timeout -> unshare -m (exec) -> this process; the parent (timeout) still lives
+	// in the original namespace. Mount only when ours provably differs from it.
 	self, err1 := os.Readlink("/proc/self/ns/mnt")
-	init1, err2 := os.Readlink("/proc/1/ns/mnt")
+	init1, err2 := os.Readlink(fmt.Sprintf("/proc/%d/ns/mnt", os.Getppid()))
 	if err1 != nil || err2 != nil || self == init1 || os.Geteuid() != 0 {
 		r.Set("scratch_on_tmpfs", false)
 		return func() {}
@@ -133,12 +136,60 @@ func top(r *vf.Run) {
 		runBatches(r, "convp", i, i+1, 1, false)
 		return
 	}
-	runBatches(r, "conv", 0, nCases(r, "conv"), r.N(7, 7), true)
-	runBatches(r, "convp", 0, nCases(r, "convp"), r.N(21, 42), false)
-	ex := r.RunChild(vf.ChildSpec{Stage: "direct", Race: true, Timeout: 10 * time.Minute, Attribution: []string{attribution}, Env: childEnv})
+	// The batches are independent: run a few children side by side (each has 4 Ps).
+	type job struct {
+		stage  string
+		lo, hi int
+		race   bool
+	}
+	var jobs []job
+	split := func(stage string, per int, race bool) {
+		n := nCases(r, stage)
+		for lo := 0; lo < n; lo += per {
+			hi := lo + per
+			if hi > n {
+				hi = n
+			}
+			jobs = append(jobs, job{stage, lo, hi, race})
+		}
+	}
+	split("conv", r.N(1, 4), true)
+	split("convp", r.N(3, 15), false)
+	jobs = append(jobs, job{stage: "direct", race: true})
+	ch := make(chan job)
+	var wg sync.WaitGroup
+	for w := 0; w < 4; w++ {
+		wg.Add(1)
+		go func() {
+			defer wg.Done()
+			for j := range ch {
+				t := time.Now()
+				if j.stage == "direct" {
+					runDirect(r)
+				} else {
+					runBatches(r, j.stage, j.lo, j.hi, j.hi-j.lo, j.race)
+				}
+				r.Count("stage_wall_ms_"+j.stage, int(time.Since(t).Milliseconds()))
+			}
+		}()
+	}
+	for _, j := range jobs {
+		ch <- j
+	}
+	close(ch)
+	wg.Wait()
+	r.Assume("containerd v2.2.3 content/local store, images/converter.DefaultIndexConvertFunc and archive/compression are the environment, not the subject; blobs are read back straight from the store directory")
+	r.Assume("std compress/gzip, archive/tar, encoding/json, crypto/sha256 and klauspost/compress/zstd (trusted base) decode the blobs for the independent recomputation")
+	r.Assume("the label store handed to content/local is sharded by digest; it adds happens-before edges only between operations on digests of the same shard (256 shards); a quarter of the cases run without any label store")
+	r.Assume("a conversion that returns an error on a generated image proves nothing about descriptors and is counted as inconclusive, not as passed")
+}
+
+func runDirect(r *vf.Run) {
+	ex := r.RunChild(vf.ChildSpec{Stage: "direct", Race: true, Timeout: 15 * time.Minute, Env: childEnv})
+	accountRaces(r, ex.Races)
 	if ex.TimedOut {
 		r.Inconclusive("watchdog: stage direct timed out")
-	} else if ex.ExitCode != 0 || ex.Signal != "" || !ex.Partial {
+	} else if (ex.ExitCode != 0 && ex.ExitCode != 66) || ex.Signal != "" || !ex.Partial {
 		class, site, head := crashSignature(ex.Output)
 		if class != "" {
 			r.Violate(class+"@"+site+":direct-call", "the process crashed ("+head+") while a layer ConvertFunc was called directly", map[string]any{"stage": "direct", "crash": head, "output_tail": tail(ex.Tail, 2500)})
@@ -146,13 +197,115 @@ func top(r *vf.Run) {
 			r.Inconclusive(fmt.Sprintf("stage direct ended abnormally (exit %d %s)", ex.ExitCode, ex.Signal))
 		}
 	}
-	r.Assume("containerd v2.2.3 content/local store, images/converter.DefaultIndexConvertFunc and archive/compression are the environment, not the subject; blobs are read back straight from the store directory")
-	r.Assume("std compress/gzip, archive/tar, encoding/json, crypto/sha256 and klauspost/compress/zstd (trusted base) decode the blobs for the independent recomputation")
-	r.Assume("the label store handed to content/local is sharded by digest; it adds happens-before edges only between operations on digests of the same shard (256 shards); a quarter of the cases run without any label store")
-	r.Assume("a conversion that returns an error on a generated image proves nothing about descriptors and is counted as inconclusive, not as passed")
 }
 
-// runBatches runs cases [0,n) of a stage in child processes of at most `batch` cases.
+// accountRaces turns the race reports of a child into violations. The framework's own
+// accounting keys a report by the innermost repo frames of BOTH stacks, but the detector
+// restores the stack of the previous access from a bounded history (history_size=5) and
+// that stack is often truncated or belongs to an unrelated call (seen here: a map write of
+// externaltoc.layerConvert reported "in estargz.decompressBlob"). The stack of the
+// current access is exact, and every racing access is the current one in some report, so
+// the key is built from the current access only:
+//
+//	race:<read|write|map-write|...>@<innermost repo function>[<-<innermost nativeconverter function>]
+//
+// A report counts against C19 iff one of its two stacks runs through nativeconverter/.
+func accountRaces(r *vf.Run, reps []vf.RaceReport) {
+	for _, rep := range reps {
+		r.Count("race_reports_total", 1)
+		cur, prev := rep.Access[0], rep.Access[1]
+		in := func(st []string) bool {
+			for _, fn := range st {
+				if strings.HasPrefix(fn, repoMod+attribution) {
+					return true
+				}
+			}
+			return false
+		}
+		if !in(cur) && !in(prev) {
+			a, b := rep.InnermostFrames()
+			r.Distinct("unattributed_races", a+"|"+b)
+			continue
+		}
+		// a race whose current access is in the harness itself would be my bug
+		if len(cur) > 0 && strings.HasPrefix(firstNonRuntime(cur), "main.") {
+			r.Inconclusive("race report with the current access in the harness: " + firstNonRuntime(cur))
+			continue
+		}
+		st := cur
+		if !in(cur) {
+			st = prev
+		}
+		inner, conv := "", ""
+		for _, fn := range st {
+			if !strings.HasPrefix(fn, repoMod) {
+				continue
+			}
+			if inner == "" {
+				inner = midFunc(fn)
+			}
+			if strings.HasPrefix(fn, repoMod+attribution) {
+				conv = midFunc(fn)
+				break
+			}
+		}
+		acc := accessKind(rep.Text, st)
+		key := "race:" + acc + "@" + inner
+		if conv != inner {
+			key += "<-" + conv
+		}
+		r.Violate(key, "data race ("+acc+" in "+inner+") on state shared by the concurrent layer conversions of one converter instance",
+			map[string]any{"report": rep.Text})
+		r.Distinct("attributed_races", key)
+	}
+}
+
+const repoMod = "github.com/containerd/stargz-snapshotter/"
+
+func firstNonRuntime(st []string) string {
+	for _, fn := range st {
+		if !strings.HasPrefix(fn, "runtime.") && !strings.HasPrefix(fn, "internal/runtime") {
+			return fn
+		}
+	}
+	return ""
+}
+
+// midFunc: module prefix stripped, closure suffixes and inlining prefixes normalised,
+// directory kept ("nativeconverter/estargz.LayerConvertFunc" vs "estargz.Build").
+func midFunc(fn string) string {
+	fn = strings.TrimPrefix(fn, repoMod)
+	dir := ""
+	if i := strings.LastIndex(fn, "/"); i >= 0 {
+		dir, fn = fn[:i+1], fn[i+1:]
+	}
+	return dir + shortFunc(fn)
+}
+
+func accessKind(text string, st []string) string {
+	kind := "access"
+	first := strings.TrimSpace(strings.TrimPrefix(text, "WARNING: DATA RACE"))
+	switch {
+	case strings.HasPrefix(first, "Write"):
+		kind = "write"
+	case strings.HasPrefix(first, "Read"):
+		kind = "read"
+	case strings.HasPrefix(first, "Atomic"):
+		kind = "atomic"
+	}
+	if len(st) > 0 && strings.HasPrefix(st[0], "runtime.map") {
+		if strings.Contains(st[0], "assign") || strings.Contains(st[0], "delete") {
+			return "map-write"
+		}
+		return "map-read"
+	}
+	if len(st) > 0 && (st[0] == "runtime.growslice" || st[0] == "runtime.slicecopy" || st[0] == "runtime.memmove") {
+		return kind + "-slice"
+	}
+	return kind
+}
+
+// runBatches runs cases [from,n) of a stage in child processes of at most `batch` cases.
 func runBatches(r *vf.Run, stage string, from, n, batch int, race bool) {
 	crashes := 0
 	for lo := from; lo < n; {
@@ -167,8 +320,9 @@ func runBatches(r *vf.Run, stage string, from, n, batch int, race bool) {
 		}
 		ex := r.RunChild(vf.ChildSpec{
 			Stage: stage, Args: []string{strconv.Itoa(lo), strconv.Itoa(hi), journal},
-			Race: race, Timeout: timeout, Attribution: []string{attribution}, Env: childEnv,
+			Race: race, Timeout: timeout, Env: childEnv, // no Attribution: accountRaces below
 		})
+		accountRaces(r, ex.Races)
 		open, lastEnd := readJournal(journal)
 		if ex.TimedOut {
 			r.Inconclusive("watchdog: child stage " + stage + " timed out")
@@ -178,7 +332,8 @@ func runBatches(r *vf.Run, stage string, from, n, batch int, race bool) {
 			}
 			return
 		}
-		if ex.ExitCode == 0 && ex.Signal == "" && ex.Partial && open < 0 {
+		// exit status 66 is the race detector's "reports were written" status of a run that completed
+		if (ex.ExitCode == 0 || ex.ExitCode == 66) && ex.Signal == "" && ex.Partial && open < 0 && lastEnd == hi-1 {
 			lo = hi
 			continue
 		}
@@ -306,7 +461,7 @@ func crashClass(msg string) string {
 // crashSite: "externaltoc.writeTOCTo" style name of the innermost nativeconverter frame
 // of the stack (closure suffixes stripped), else of the innermost repo frame.
 func crashSite(stack string) string {
-	const mod = "github.com/containerd/stargz-snapshotter/"
+	const mod = repoMod
 	first := ""
 	for _, ln := range strings.Split(stack, "\n") {
 		ln = strings.TrimSpace(ln)
